@@ -35,6 +35,11 @@ func deepTerm(fa *FuncAnalysis, t *Term, depth int) string {
 	case "param":
 		return "$" + t.Name
 	case "fv":
+		// a captured variable by its type: names are the author's, and the type tells which of the enclosing function's
+		// values it is in all but contrived cases
+		if t.Val != nil {
+			return "^" + typeKey(t.Val.Type())
+		}
 		return "^" + srPrefix.ReplaceAllString(t.Name, "")
 	case "global":
 		return t.Name
@@ -68,7 +73,11 @@ func deepTerm(fa *FuncAnalysis, t *Term, depth int) string {
 		if b == "_" {
 			return "_"
 		}
-		return "(. " + b + " " + t.Name + ")"
+		name := t.Name
+		if len(name) > 0 && name[0] >= 'a' && name[0] <= 'z' && t.Val != nil {
+			name = "<dep>" // an unexported field (a dependency of a keeper, server or plugin struct): the callee names it
+		}
+		return "(. " + b + " " + name + ")"
 	case "index":
 		b := deepTerm(fa, t.Args[0], depth-1)
 		if b == "_" {
@@ -82,9 +91,25 @@ func deepTerm(fa *FuncAnalysis, t *Term, depth int) string {
 		if b == "_" {
 			return "_"
 		}
+		if strings.HasPrefix(b, "(valaddr ") && t.Name == "0" {
+			return b
+		}
 		return "(# " + b + " " + t.Name + ")"
 	case "call", "ncall", "builtin":
-		return strings.TrimSpace("("+t.Name+" "+kids(t.CallArgsT(), depth-1)) + ")"
+		// the operator address of an alliance validator, however it is obtained: AllianceValidator.GetValAddress is
+		// ValAddressFromBech32(v.Validator.OperatorAddress) (types/validator.go), Validator.GetOperator the same field
+		as := t.CallArgsT()
+		switch {
+		case t.Name == "types.AllianceValidator.GetValAddress" && len(as) == 1:
+			return "(valaddr " + deepTerm(fa, as[0], depth-1) + ")"
+		case t.Name == "sdk.ValAddressFromBech32" && len(as) == 1:
+			if o := operatorOf(as[0]); o != nil {
+				return "(valaddr " + deepTerm(fa, o, depth-1) + ")"
+			}
+		case (t.Name == "sdk.NewDecCoins" || t.Name == "sdk.NewCoins") && len(as) == 1 && as[0].Op == "const" && as[0].Name == "nil":
+			return "(list)" // the empty set, as a constructor call without arguments or as an empty literal
+		}
+		return strings.TrimSpace("("+t.Name+" "+kids(as, depth-1)) + ")"
 	case "binop":
 		return "(" + t.Name + " " + kids(t.Args[:2], depth-1) + ")"
 	case "unop", "conv":
@@ -133,12 +158,23 @@ func deepTerm(fa *FuncAnalysis, t *Term, depth int) string {
 
 // operatorOf: t is X.Validator.OperatorAddress or X.Validator.GetOperator() for some X; returns X.
 func operatorOf(t *Term) *Term {
-	if t.Op == "field" && t.Name == "OperatorAddress" && t.Args[0].Op == "field" && t.Args[0].Name == "Validator" {
-		return t.Args[0].Args[0]
+	strip := func(x *Term) *Term {
+		for x != nil && x.Op == "deref" {
+			x = x.Args[0]
+		}
+		return x
+	}
+	t = strip(t)
+	if t.Op == "field" && t.Name == "OperatorAddress" {
+		if v := strip(t.Args[0]); v.Op == "field" && v.Name == "Validator" {
+			return v.Args[0]
+		}
 	}
 	if (t.Op == "call" || t.Op == "ncall") && t.Name == "stakingtypes.Validator.GetOperator" {
-		if as := t.CallArgsT(); len(as) == 1 && as[0].Op == "field" && as[0].Name == "Validator" {
-			return as[0].Args[0]
+		if as := t.CallArgsT(); len(as) == 1 {
+			if v := strip(as[0]); v.Op == "field" && v.Name == "Validator" {
+				return v.Args[0]
+			}
 		}
 	}
 	return nil
@@ -209,6 +245,29 @@ func parseSx(s string) *sx {
 		return &sx{atom: s[st:pos]}
 	}
 	return parse()
+}
+
+func (n *sx) String() string {
+	if len(n.kids) == 0 && n.atom != "" {
+		return n.atom
+	}
+	var parts []string
+	for _, k := range n.kids {
+		parts = append(parts, k.String())
+	}
+	return "(" + strings.Join(parts, " ") + ")"
+}
+
+// phiAlternatives flattens a joined value `(phi a (phi b c))` into a, b, c.
+func phiAlternatives(n *sx) []*sx {
+	if len(n.kids) > 0 && n.kids[0].atom == "phi" && len(n.kids[0].kids) == 0 {
+		var out []*sx
+		for _, k := range n.kids[1:] {
+			out = append(out, phiAlternatives(k)...)
+		}
+		return out
+	}
+	return []*sx{n}
 }
 
 // sxMatch: equal up to the wildcard `_` on either side.
@@ -308,16 +367,7 @@ func init() {
 			Doc: "every effect of every function in the property's call trees is given the values the reviewed tree gives it",
 			Run: func(e *Engine, r *RuleRun) {
 				r.rule = &Rule{ID: "X.args", Props: []string{prop}, Floor: 5}
-				inScope := map[string]bool{}
-				for _, g := range skipPropGroups[prop] {
-					for _, ek := range skipEntryGroups[g] {
-						if fn := e.Fn(ek); fn != nil {
-							for _, f := range e.Reach(fn) {
-								inScope[FuncKey(f)] = true
-							}
-						}
-					}
-				}
+				inScope := e.scopeOf(prop)
 				tab := e.argTable()
 				var fks []string
 				for k := range tab {
@@ -360,6 +410,166 @@ func init() {
 							r.OK(fk, construct, fmt.Sprintf("one of the %d reviewed argument tuples", len(allowed)), e.Pos(fn.Pos()))
 						} else {
 							r.BadAt(fk, construct, "this effect is applied to other values than in the reviewed tree: "+strings.Join(extra, " ; ")+" - reviewed: "+strings.Join(allowed, " ; "), nil, extra, e.Pos(fn.Pos()))
+						}
+					}
+				}
+			}})
+	}
+}
+
+// X.fields - what every field of a state record is set to.
+//
+// The last general clause: for every store into a field of a record type of x/alliance/types (an asset total, a
+// delegation's shares, the balance of a queue entry, a validator's share lists, ...) in a function of the property's call
+// trees, the value stored - rendered like the arguments of X.args - must match one of the values the reviewed tree stores
+// into the same field in the same function.  X.args sees such a value only when the record is handed to an effect as a
+// whole; entries of a decoded bucket and records shared through pointers are changed in place and written back through
+// a marshaller that the value model does not look into.
+
+func (e *Engine) fieldTable() map[string]map[string][]string {
+	tab := map[string]map[string][]string{}
+	for _, fn := range e.SMFuncs() {
+		if len(fn.Blocks) == 0 || e.isGenerated(fn.Pos()) || !sigUnchanged(topFunc(fn)) {
+			continue
+		}
+		fa := e.FA(fn)
+		row := map[string]map[string]bool{}
+		for _, a := range e.DirectAtoms(fn) {
+			if a.Kind != "fieldwrite" || strings.HasSuffix(strings.SplitN(a.Name, ".", 2)[0], "Event") {
+				continue // events are not state
+			}
+			st, ok := a.Instr.(*ssa.Store)
+			if !ok {
+				continue
+			}
+			if row[a.Name] == nil {
+				row[a.Name] = map[string]bool{}
+			}
+			// a value chosen on several paths is the set of its alternatives (one store of a joined value and one
+			// store per branch are the same thing); storing a field's own current value back is no change
+			self := ""
+			if fad, ok := st.Addr.(*ssa.FieldAddr); ok {
+				if stt := derefStruct(fad.X.Type()); stt != nil {
+					self = deepTerm(fa, &Term{Op: "field", Name: stt.Field(fad.Field).Name(), Args: []*Term{fa.Term(fad.X)}}, 3)
+				}
+			}
+			for _, alt := range phiAlternatives(parseSx(deepTerm(fa, fa.Term(st.Val), 4))) {
+				if as := alt.String(); as != self || self == "_" {
+					row[a.Name][as] = true
+				}
+			}
+		}
+		if len(row) == 0 {
+			continue
+		}
+		out := map[string][]string{}
+		for k, set := range row {
+			// an accumulation starts from nothing: `var xs []T` (nil) and an empty literal are the same start
+			hasAppend := false
+			for s := range set {
+				if strings.HasPrefix(s, "(builtin.append ") {
+					hasAppend = true
+				}
+			}
+			var list []string
+			for s := range set {
+				if hasAppend && (s == "nil" || s == "(list)") {
+					continue
+				}
+				list = append(list, s)
+			}
+			sort.Strings(list)
+			out[k] = list
+		}
+		tab[FuncKey(fn)] = out
+	}
+	return tab
+}
+
+func dumpFields(e *Engine) {
+	tab := e.fieldTable()
+	fmt.Println()
+	fmt.Println("// For every state-machine function and every record field it stores into: the values stored (rules_args.go, X.fields).")
+	fmt.Println("var baselineFields = map[string]map[string][]string{")
+	var fks []string
+	for k := range tab {
+		fks = append(fks, k)
+	}
+	sort.Strings(fks)
+	for _, fk := range fks {
+		var eks []string
+		for k := range tab[fk] {
+			eks = append(eks, k)
+		}
+		sort.Strings(eks)
+		fmt.Printf("\t%q: {\n", fk)
+		for _, ek := range eks {
+			var qs []string
+			for _, s := range tab[fk][ek] {
+				qs = append(qs, fmt.Sprintf("%q", s))
+			}
+			fmt.Printf("\t\t%q: {%s},\n", ek, strings.Join(qs, ", "))
+		}
+		fmt.Println("\t},")
+	}
+	fmt.Println("}")
+}
+
+func init() {
+	var props []string
+	for p := range skipPropGroups {
+		props = append(props, p)
+	}
+	sort.Strings(props)
+	for _, prop := range props {
+		prop := prop
+		register(&Rule{ID: "X.fields." + prop, Props: []string{prop}, Floor: 2,
+			Doc: "every field of a state record is set to one of the values the reviewed tree sets it to in the same function",
+			Run: func(e *Engine, r *RuleRun) {
+				r.rule = &Rule{ID: "X.fields", Props: []string{prop}, Floor: 2}
+				inScope := e.scopeOf(prop)
+				tab := e.fieldTable()
+				var fks []string
+				for k := range tab {
+					if inScope[k] {
+						fks = append(fks, k)
+					}
+				}
+				sort.Strings(fks)
+				for _, fk := range fks {
+					base, reviewed := baselineFields[fk]
+					if !reviewed {
+						continue
+					}
+					fn := e.Fn(fk)
+					var eks []string
+					for k := range tab[fk] {
+						eks = append(eks, k)
+					}
+					sort.Strings(eks)
+					for _, ek := range eks {
+						allowed, known := base[ek]
+						if !known {
+							continue
+						}
+						var extra []string
+						for _, s := range tab[fk][ek] {
+							ps, hit := parseSx(s), false
+							for _, a := range allowed {
+								if sxMatch(ps, parseSx(a)) {
+									hit = true
+									break
+								}
+							}
+							if !hit {
+								extra = append(extra, s)
+							}
+						}
+						construct := "values stored into " + ek
+						if len(extra) == 0 {
+							r.OK(fk, construct, fmt.Sprintf("one of the %d reviewed values", len(allowed)), e.Pos(fn.Pos()))
+						} else {
+							r.BadAt(fk, construct, "this field is set to another value than in the reviewed tree: "+strings.Join(extra, " ; ")+" - reviewed: "+strings.Join(allowed, " ; "), nil, extra, e.Pos(fn.Pos()))
 						}
 					}
 				}
